@@ -40,7 +40,9 @@ CanonScn(j) == [aprofiles |-> [p \in DOMAIN j.aprofiles |-> CanonAP(j.aprofiles[
                 sprofiles |-> [p \in DOMAIN j.sprofiles |-> CanonSP(j.sprofiles[p])],
                 sparent |-> j.sparent,
                 allocs |-> [x \in DOMAIN j.allocs |->
-                              [label |-> j.allocs[x].label, traits |-> SetOf(j.allocs[x].traits)]]]
+                              [label |-> j.allocs[x].label, traits |-> SetOf(j.allocs[x].traits),
+                               rank |-> j.allocs[x].rank, adj |-> j.allocs[x].adj,
+                               reserved |-> j.allocs[x].reserved, maxutil |-> j.allocs[x].maxutil]]]
 
 RECURSIVE Flatten(_)
 Flatten(qs) == IF qs = <<>> THEN <<>> ELSE Head(qs) \o Flatten(Tail(qs))
@@ -68,8 +70,36 @@ AllocNext(al, line, scn) ==
   ELSE IF line.ev = "RemoveApp" THEN Without(al, line.args[1])
   ELSE al
 
+PrioNext(pr, line, scn) ==
+  IF "exc" \in DOMAIN line THEN pr
+  ELSE IF line.ev = "Submit" THEN With(pr, line.args[1], scn.aprofiles[line.args[2]].prio)
+  ELSE IF line.ev = "SetPrio" THEN With(pr, line.args[1], line.args[2])
+  ELSE IF line.ev = "RemoveApp" THEN Without(pr, line.args[1])
+  ELSE pr
+
+(* the pre-state as the ENVIRONMENT configured it: allocation parameters,     *)
+(* allocation membership and priorities from the observer's record, not from  *)
+(* the fields of the code's own objects (C06 is about the declared values)    *)
+ObsPre(pre, a, line, tr) ==
+  LET scn == IF tr.kind = "l1" THEN CanonScn(tr.scn) ELSE [allocs |-> EmptyFn]
+      allocsO == [x \in DOMAIN pre.allocs |->
+                    IF x \in DOMAIN scn.allocs
+                    THEN [rank |-> scn.allocs[x].rank, adj |-> scn.allocs[x].adj,
+                          reserved |-> scn.allocs[x].reserved, maxutil |-> scn.allocs[x].maxutil,
+                          label |-> scn.allocs[x].label]
+                    ELSE pre.allocs[x]]
+      prioO(n) == IF n \in DOMAIN a.prio THEN a.prio[n]
+                  ELSE IF "oprio" \in DOMAIN line /\ n \in DOMAIN line.oprio THEN line.oprio[n]
+                  ELSE pre.apps[n].prio
+      allocO(n) == IF n \in DOMAIN a.alloc THEN a.alloc[n] ELSE pre.apps[n].alloc
+  IN [pre EXCEPT !.allocs = allocsO,
+                 !.apps = [n \in DOMAIN pre.apps |->
+                             [pre.apps[n] EXCEPT !.prio = prioO(n), !.alloc = allocO(n)]]]
+
 AuxNext(a, pre, line, post, scn) ==
   [down |-> DownNext(a.down, pre, line, post),
+   prio |-> IF line.ev \in {"Submit", "SetPrio", "RemoveApp"}
+            THEN PrioNext(a.prio, line, CanonScn(scn)) ELSE a.prio,
    alloc |-> IF line.ev \in {"Submit", "Move", "RemoveApp"}
              THEN AllocNext(a.alloc, line, CanonScn(scn)) ELSE a.alloc]
 
@@ -105,12 +135,13 @@ CycleFail(pre, line, post) ==
   \cup F("C08.frozenKeep", C08frozenKeep(pre, post, q))
   \cup F("C08.frozenNoNew", C08frozenNoNew(pre, post))
   \cup F("C08.blacklist", C08blacklist(post))
-  \cup F("C06.perm", C06perm(pre, line.queues))
-  \cup F("C06.rank", \A k \in DOMAIN line.queues : C06rank(line.queues[k]))
-  \cup F("C06.prio", \A k \in DOMAIN line.queues : C06prio(pre, line.queues[k]))
-  \cup F("C06.zeroLast", \A k \in DOMAIN line.queues : C06zeroLast(pre, line.queues[k]))
-  \cup F("C06.boost", \A k \in DOMAIN line.queues : C06boost(pre, line.queues[k]))
-  \cup F("C06.cap", \A k \in DOMAIN line.queues : C06cap(pre, line.queues[k], post))
+  \cup (LET op == ObsPre(pre, aux, line, Traces[t]) IN
+        F("C06.perm", C06perm(op, line.queues))
+        \cup F("C06.rank", \A k \in DOMAIN line.queues : C06rank(line.queues[k]))
+        \cup F("C06.prio", \A k \in DOMAIN line.queues : C06prio(op, line.queues[k]))
+        \cup F("C06.zeroLast", \A k \in DOMAIN line.queues : C06zeroLast(op, line.queues[k]))
+        \cup F("C06.boost", \A k \in DOMAIN line.queues : C06boost(op, line.queues[k]))
+        \cup F("C06.cap", \A k \in DOMAIN line.queues : C06cap(op, line.queues[k], post)))
   \cup F("drift.cycle", CycleExplained(pre, line.queues, post))
   \cup F("C02.prune", C02prune(post))
   \cup (IF line.ev = "ProbeCycle" /\ line.quiet
@@ -152,7 +183,8 @@ Verdict(pre, line, post) ==
 Init == /\ t \in DOMAIN Traces
         /\ i = 1
         /\ st = Canon(Traces[t].lines[1].post)
-        /\ aux = [down |-> DownOf(Canon(Traces[t].lines[1].post)), alloc |-> EmptyFn]
+        /\ aux = [down |-> DownOf(Canon(Traces[t].lines[1].post)), alloc |-> EmptyFn,
+                  prio |-> EmptyFn]
 
 Next == /\ i < Len(Traces[t].lines)
         /\ i' = i + 1
